@@ -45,6 +45,9 @@ type nameSpace struct {
 	// javascript: URIs are disallowed in templates in this namespace.
 	cspCompatible bool
 	esc           escaper
+	// derivedNames holds the names of the context-specific copies of templates that
+	// the escaper has added to the set.
+	derivedNames map[string]bool
 }
 
 // Templates returns a slice of the templates associated with t, including t
